@@ -153,6 +153,22 @@ pub fn directed() -> Vec<(String, &'static str, Vec<Op>)> {
         out.push((n.into(), "Installer", ops));
     }
     out.push((
+        "bom-like-strings-utf8".into(),
+        "Installer",
+        vec![create("T", &kv), ins("T", vec![vec![V::Int(1), V::s("\u{feff}cell")], vec![V::Int(2), V::s("\u{feff}")], vec![V::Int(3), V::s("x\u{feff}y")]]), Op::Summary(SumOp::SetTitle("\u{feff}Title".into()))],
+    ));
+    out.push((
+        "bom-like-strings-1252".into(),
+        "Installer",
+        vec![
+            Op::SetDbCodepage(1252),
+            Op::Summary(SumOp::SetCodepage(1252)),
+            create("T", &kv),
+            ins("T", vec![vec![V::Int(1), V::s("ÿþAb")], vec![V::Int(2), V::s("þÿAb")], vec![V::Int(3), V::s("ï»¿café")]]),
+            Op::Summary(SumOp::SetComments("ÿþ comments".into())),
+        ],
+    ));
+    out.push((
         "streams-and-drop-table".into(),
         "Installer",
         vec![
